@@ -144,4 +144,11 @@ theorem monotone_step (cfg : Cfg) (f : γ → Task → M Value) (t : Task)
   unfold step
   mono_all hmono
 
+theorem monotone_stepN (cfg : Cfg) (f : γ → Task → M Value) (t : Task)
+    (hmono : monotone f) : monotone (fun x => stepN cfg (f x) t) := by
+  have := monotone_step cfg f t hmono
+  unfold stepN
+  mono_all hmono
+  all_goals exact this
+
 end Rsj.Eval
